@@ -4,7 +4,7 @@ request: walk <cfg> <paths> <skip> <regex> <glob> <req> <ext> <nroots> { <tree> 
   cfg    ug=,isd=,rs=,mx=,mi=,eofs=,cb=,ca=,next=        (ca=0: no cancellation)
   path   "." or hex segments joined by "/";  lists joined by ";" ("-" = empty)
   regex/glob  none | set:<paths;>            (the directory paths the real engine matched)
-  req    e@path;…        ext  e@path=<err><panic>:<ids,>;…
+  req    e@path;…        ext  e@path=<err><panic>[<finding>]:<ids,>;…
   tree   preorder nodes path:kind:size:gi ;  kind d|r|l|s ;  gi  n | g<pat,…> ;  pat <dirOnly><neg><hexname> | 20<hex of a raw line>
          a .gitignore with a raw line (full gitignore syntax) is NOT interpreted by the model: the optional last token
          gt=<hex(key)~path~d|f,…> lists what the real go-git matcher excludes (key = "<dir path>#<gi field>"); the model's
@@ -122,6 +122,7 @@ def parseExt (s : String) : Option ((Nat × Path) × ExtractOut) :=
     | some ep, [flags, ids] =>
       match flags.toList, (listOf ids ",").mapM (·.toNat?) with
       | [e, p], some ids => some (ep, { pkgs := ids, err := e = '1', panics := p = '1' })
+      | [e, p, o], some ids => some (ep, { pkgs := ids, err := e = '1', panics := p = '1', other := o = '1' })
       | _, _ => none
     | _, _ => none
   | _ => none
